@@ -124,6 +124,18 @@ def apply_perturbation(resp, p):
         m = res.get("measures", {}).get(p[1])
         if m and isinstance(m.get("metadata"), dict):
             m["metadata"].pop("references", None)
+    elif kind == "resolution":  # ["resolution", raw_dim_idx, "2M"]: a rolled-up datetime resolution
+        _k, di, resv = p
+        sub = res["dimensions"][di]["type"].get("subtype")
+        if isinstance(sub, dict):
+            sub["resolution"] = resv
+    elif kind == "infinity":  # ["infinity", measure, idx, sign]: a non-finite cell (JSON: Infinity)
+        _k, mname, idx, sign = p
+        m = res.get("measures", {}).get(mname)
+        if m and isinstance(m.get("data"), list) and m["data"]:
+            j = idx % len(m["data"])
+            if isinstance(m["data"][j], (int, float)) and not isinstance(m["data"][j], bool):
+                m["data"][j] = float("inf") * sign
     elif kind == "duplabel":  # ["duplabel", raw_dim_idx, i, j]: element j gets the label of element i
         _k, di, i, j = p
         t = res["dimensions"][di]["type"]
@@ -203,13 +215,56 @@ def apply_perturbation(resp, p):
 # ------------------------------------------------------------------ texts and objects
 
 
+def trimmed_response(base, di, pos):
+    """A NEW response with element `pos` of dimension `di` (and its data) left out, built the
+    way an application derives one table from another: new lists, new counts, but the SAME
+    element dicts and the SAME other dimension dicts as `base`."""
+    import numpy as np
+
+    inner = base.get("value", base)
+    res = inner["result"]
+    dims = res["dimensions"]
+
+    def defs(d):
+        t = d["type"]
+        return t["categories"] if t.get("class") == "categorical" else t["elements"]
+
+    shape = [len(defs(d)) for d in dims]
+    n = 1
+    for k in shape:
+        n *= k
+
+    def cut(data):
+        a = np.empty(len(data), dtype=object)
+        a[:] = data
+        return np.delete(a.reshape(shape), pos, axis=di).ravel().tolist()
+
+    tdim = dims[di]
+    key = "categories" if tdim["type"].get("class") == "categorical" else "elements"
+    new_dim = dict(tdim, type=dict(tdim["type"], **{key: [e for k, e in enumerate(defs(tdim)) if k != pos]}))
+    new_res = dict(res, dimensions=[new_dim if k == di else d for k, d in enumerate(dims)])
+    if isinstance(res.get("counts"), list) and len(res["counts"]) == n:
+        new_res["counts"] = cut(res["counts"])
+    measures = {}
+    for name, m in (res.get("measures") or {}).items():
+        if isinstance(m, dict) and isinstance(m.get("data"), list) and len(m["data"]) == n:
+            measures[name] = dict(m, data=cut(m["data"]))
+        # measures of another shape (overlaps, covariance) do not survive the trimming
+    new_res["measures"] = measures
+    new_inner = dict(inner, result=new_res)
+    return dict(base, value=new_inner) if "value" in base and base is not inner else new_inner
+
+
 def arg_texts(scenario):
     """Pristine JSON text per argument; derived arguments borrow from their bases."""
     args = scenario["args"]
-    texts = {aid: arg_text(ad) for aid, ad in args.items() if "view_of" not in ad and "compose" not in ad}
+    texts = {aid: arg_text(ad) for aid, ad in args.items()
+             if "view_of" not in ad and "compose" not in ad and "trim_of" not in ad}
     for aid, ad in args.items():
         if "view_of" in ad:
             texts[aid] = texts[ad["view_of"]]
+        elif "trim_of" in ad:
+            texts[aid] = json.dumps(trimmed_response(json.loads(texts[ad["trim_of"]]), ad["dim"], ad["drop"]))
     pending = [aid for aid, ad in args.items() if "compose" in ad]
     while pending:  # composed arguments may name other composed arguments
         progressed = False
@@ -233,6 +288,11 @@ def materialise_arg(scenario, texts, aid, get_arg, argdef=None):
         if isinstance(base, dict):
             return toggled_envelope(base)  # the SAME inner dict, wrapped or unwrapped
         return materialise(dict(ad, form="toggle"), texts[aid])
+    if "trim_of" in ad:
+        base = get_arg(ad["trim_of"])
+        if isinstance(base, dict):
+            return trimmed_response(base, ad["dim"], ad["drop"])
+        return json.loads(texts[aid])
     if "compose" in ad:
         return _compose(ad["compose"], get_arg)
     return materialise(ad, texts[aid])
